@@ -25,6 +25,8 @@ def run(tier):
         fams.append(("randcall", p, root, src))
     for p, root in gen_calls.minimal_callees():
         fams.append(("minimal", p, root, None))
+    for p, root in gen_calls.vararg_after_call_cases():
+        fams.append(("vaaftercall", p, root, None))
     for p, root in gen_calls.select_cases():
         fams.append(("select", p, root, None))
     # the same call shapes among many constants (operands beyond the RK range live in registers)
